@@ -594,8 +594,10 @@ func c08EnumEdits(size, shard, nshards int, emit func(c07Case)) {
 				for _, op := range ops {
 					for _, added := range []int64{99, -1, 0, 1} {
 						for _, removed := range []int64{99, -1, 0, 1} {
-							for _, self := range []string{"keep", "remove", "lower", "raise"} {
-								if which != "users" && self != "keep" {
+							for _, self := range []string{"keep", "remove", "lower", "raise", "via-default"} {
+								// "via-default": the sender is not listed at all, its level L is the room's
+								// users_default (in v12 the users map is then EMPTY: creators are never listed)
+								if (which != "users" && self != "keep" && self != "via-default") || (which == "users" && self == "via-default") {
 									continue
 								}
 								idx++
@@ -619,7 +621,12 @@ func c08EditCase(version string, L int64, which string, oldOff, newOff, added, r
 		users[c07Creator] = 100
 	}
 	r := c07Room{Version: version, HasPL: true, JoinRule: "public", Members: map[string]string{c07Creator: "join", c07Alice: "join", c07Bob: "join", c07Carol: "join"}}
-	oldC := c07PLContent(users, map[string]int64{"state_default": 50}, nil, nil)
+	named := map[string]int64{"state_default": 50}
+	if self == "via-default" {
+		delete(users, c07Alice)
+		named["users_default"] = L
+	}
+	oldC := c07PLContent(users, named, nil, nil)
 	newC := oldC
 	set := func(c jv, mapKey, k string, off int64) jv {
 		if off == 99 {
